@@ -1,7 +1,10 @@
 CONSTANT MaxSecs = 4
+CONSTANT RefOf <- RefMC
 CONSTANT Gen = FALSE
 SPECIFICATION Spec
 INVARIANT P_Invariant
 INVARIANT P_Once
 INVARIANT P_Filter
+INVARIANT P_Flat
+INVARIANT P_Plain
 CHECK_DEADLOCK FALSE
